@@ -107,7 +107,7 @@ def _tag_ok(ctx, label, got, raw):
 
 def _check_dynamic(ctx, dyn, exp, label):
     tags = exp['tags']
-    got = list(dyn.iter_tags())
+    got = ctx.drain(dyn.iter_tags())
     ctx.check_eq(label + '/tag-count (up to and including the first DT_NULL)', len(got), len(tags))
     ctx.check_eq(label + '/num_tags', dyn.num_tags(), len(tags))
     if len(got) != len(tags):
@@ -158,7 +158,7 @@ def h_dynamic(ctx):
     # dynamic symbols through the segment
     n = seg.num_symbols()
     ctx.check_eq('segment/%s/num_symbols/%s' % (variant, cfg['hash']), n, exp['k'])
-    syms = list(seg.iter_symbols())
+    syms = ctx.drain(seg.iter_symbols())
     ctx.check_eq('segment/symbols', [(s.name, s['st_value']) for s in syms], [(_s(SYMNAMES[i]), exp['svals'][i]) for i in range(exp['k'])])
     r = seg.get_symbol_by_name('gg')
     ctx.check('segment/get_symbol_by_name', r is not None and len(r) == 1 and r[0].name == 'gg')
